@@ -1,5 +1,337 @@
 import NibabelModel.Model.C04
-/-! Props/C04 — the property theorems for C04 (statements + proofs; helper lemmas live in Lemmas/). -/
+import NibabelModel.Generated.C04
+import NibabelModel.Lemmas.C04
+/-! Props/C04 — the voxel-to-world affine survives save/load to the format's precision.
+
+  Exact-arithmetic theorems about the model of Model/C04.lean.  The algebra holds over every
+  commutative ring / field (`Lean.Grind.CommRing` / `Lean.Grind.Field`; `Rat` is an instance); the
+  flows are over `Rat` with NumPy's numeric routines as parameters (`Ext`) constrained only by the
+  contracts named in the hypotheses.  IEEE rounding is NOT modelled: the precision clauses of the
+  property are checked by the oracle of harness/props/c04.py (see DESIGN §5 C04, level "partial"). -/
 namespace Nb.C04
+open Lean.Grind
+
+/-! ### sform / qform / fallback priority, sform storage -/
+
+/-- sform code ≠ 0 ⇒ sform; else qform code ≠ 0 ⇒ qform; else the shape/zoom fallback. -/
+theorem best_affine_priority (E : Ext) (f : NFmt) (h : NHdr) :
+    (h.sformCode ≠ 0 → h.bestAffine E f = .ok h.getSform) ∧
+    (h.sformCode = 0 → h.qformCode ≠ 0 → h.bestAffine E f = h.getQform E f) ∧
+    (h.sformCode = 0 → h.qformCode = 0 → h.bestAffine E f = .ok (shapeZoomAffine h.shape h.pixdim true)) := by
+  refine ⟨?_, ?_, ?_⟩
+  · intro h1; simp only [NHdr.bestAffine, h1, ne_eq, not_false_eq_true, if_true]
+  · intro h1 h2; simp only [NHdr.bestAffine, h1, h2, ne_eq, not_true_eq_false, not_false_eq_true, if_true, if_false]
+  · intro h1 h2; simp only [NHdr.bestAffine, NHdr.baseAffine, h1, h2, ne_eq, not_true_eq_false, if_false]
+
+example : (({ defaultNHdr [2, 3, 4] with sformCode := 2, qformCode := 1 } : NHdr).sformCode ≠ 0) := by decide
+
+/-- what `set_sform` stores is what `get_sform` returns: the affine rounded to the storage precision
+    (the identity for NIfTI-2), with the code; the qform fields are untouched. -/
+theorem sform_roundtrip (E : Ext) (h : NHdr) (a : Aff Rat) (code : Nat) :
+    (h.setSform E (some a) code).getSform = a.map E.rnd ∧
+    (h.setSform E (some a) code).sformCode = code ∧
+    (code ≠ 0 → (h.setSform E (some a) code).sformCoded = (some (a.map E.rnd), code)) ∧
+    (h.setSform E (some a) code).qformCode = h.qformCode ∧
+    (h.setSform E (some a) code).quat = h.quat ∧ (h.setSform E (some a) code).pixdim = h.pixdim := by
+  refine ⟨rfl, rfl, ?_, rfl, rfl, rfl⟩
+  intro hc
+  simp only [NHdr.sformCoded, NHdr.setSform, NHdr.getSform, hc, if_false]
+
+/-! ### quaternions -/
+
+section
+variable {α : Type} [Field α]
+
+/-- `quat2mat q` is orthogonal for every quaternion of non-zero norm ("the algorithm here allows
+    non-unit quaternions") -/
+theorem quat2mat_orthogonal (q : Quat α) (h : q.norm2 ≠ 0) :
+    (quat2mat q).mul (quat2mat q).transpose = M33.one ∧
+    (quat2mat q).transpose.mul (quat2mat q) = M33.one :=
+  ⟨L.quat2mat_orthogonal q h, L.quat2mat_orthogonal' q h⟩
+
+/-- … and proper: determinant 1 -/
+theorem quat2mat_det (q : Quat α) (h : q.norm2 ≠ 0) : (quat2mat q).det = 1 := L.quat2mat_det q h
+
+/-- DESIGN `quat2mat_rotation`: `w² + x² + y² + z² = 1` ⇒ orthogonal with determinant 1
+    (a field in which `1 ≠ 0`, e.g. `Rat`) -/
+theorem quat2mat_rotation (q : Quat α) (h : q.w * q.w + q.x * q.x + q.y * q.y + q.z * q.z = 1)
+    (h10 : (1 : α) ≠ 0) :
+    (quat2mat q).mul (quat2mat q).transpose = M33.one ∧ (quat2mat q).det = 1 := by
+  have hn : q.norm2 ≠ 0 := by simp only [Quat.norm2, h]; exact h10
+  exact ⟨L.quat2mat_orthogonal q hn, L.quat2mat_det q hn⟩
+
+example : (⟨1 / 2, 1 / 2, 1 / 2, 1 / 2⟩ : Quat Rat).norm2 = 1 := by decide +kernel
+example : (⟨0, 2 / 11, 6 / 11, 9 / 11⟩ : Quat Rat).norm2 = 1 := by decide +kernel
+
+/-- `q` and `-q` are the same rotation (why `mat2quat` may normalise the sign of `w`) -/
+theorem quat2mat_neg (q : Quat α) : quat2mat q.neg = quat2mat q := L.quat2mat_neg q
+
+variable [IsCharP α 0]
+
+/-- DESIGN `mat2quat_K_identity`: `K(quat2mat q) = (4·q qᵀ − 1)/3` (index order x, y, z, w) -/
+theorem mat2quat_K_identity (q : Quat α) (h : q.norm2 = 1) :
+    kMatrix (quat2mat q) =
+      ⟨(4 * q.x * q.x - 1) / 3,
+       4 * q.y * q.x / 3, (4 * q.y * q.y - 1) / 3,
+       4 * q.z * q.x / 3, 4 * q.z * q.y / 3, (4 * q.z * q.z - 1) / 3,
+       4 * q.w * q.x / 3, 4 * q.w * q.y / 3, 4 * q.w * q.z / 3, (4 * q.w * q.w - 1) / 3⟩ :=
+  L.K_identity q h
+
+/-- hence `K q = q` (eigenvalue 1) — no assumption on `w`: rotations by 180° (`w = 0`) included -/
+theorem mat2quat_K_eigen (q : Quat α) (h : q.norm2 = 1) :
+    (kMatrix (quat2mat q)).mulVec q.toV4 = q.toV4 := L.K_eigen q h
+
+/-- and `K v = −v/3` on the orthogonal complement of `q`: 1 is the largest eigenvalue and simple -/
+theorem mat2quat_K_orthogonal_complement (q : Quat α) (h : q.norm2 = 1) (v : V4 α)
+    (hv : q.x * v.v0 + q.y * v.v1 + q.z * v.v2 + q.w * v.v3 = 0) :
+    (kMatrix (quat2mat q)).mulVec v = ⟨-v.v0 / 3, -v.v1 / 3, -v.v2 / 3, -v.v3 / 3⟩ :=
+  L.K_orthogonal_complement q h v hv
+
+/-- every unit eigenvector for the eigenvalue 1 is `c·q` with `c² = 1`, i.e. `±q` -/
+theorem mat2quat_top_eigenvector_unique (q : Quat α) (h : q.norm2 = 1) (v : V4 α)
+    (hv : (kMatrix (quat2mat q)).mulVec v = v)
+    (hu : v.v0 * v.v0 + v.v1 * v.v1 + v.v2 * v.v2 + v.v3 * v.v3 = 1) :
+    ∃ c : α, c * c = 1 ∧ v = ⟨c * q.x, c * q.y, c * q.z, c * q.w⟩ :=
+  ⟨_, L.K_top_eigenvector_factor q h v hv hu, L.K_top_eigenvector q h v hv⟩
+
+end
+
+example : (kMatrix (quat2mat (⟨0, 1, 0, 0⟩ : Quat Rat))).mulVec ⟨1, 0, 0, 0⟩ = ⟨1, 0, 0, 0⟩ := by decide +kernel
+
+/-- `mat2quat` inverts `quat2mat` up to the sign of the quaternion, for EVERY unit quaternion —
+    including `w = 0` — whatever unit eigenvector for the eigenvalue 1 `eigh` returns. -/
+theorem mat2quat_quat2mat (topEig : K4 Rat → V4 Rat) (q : Quat Rat) (h : q.norm2 = 1)
+    (he : L.EigContract topEig q) :
+    quat2mat (mat2quat topEig (quat2mat q)) = quat2mat q ∧
+    (mat2quat topEig (quat2mat q)).norm2 = 1 ∧ 0 ≤ (mat2quat topEig (quat2mat q)).w :=
+  let s := L.mat2quat_spec topEig q h he
+  ⟨s.1, s.2.1, s.2.2.1⟩
+
+example : L.EigContract topEigQ (⟨0, 1, 0, 0⟩ : Quat Rat) := by
+  unfold L.EigContract; decide +kernel
+
+/-! ### qform -/
+
+/-- DESIGN `qform_decode`: whenever `get_qform` succeeds on a header whose stored quaternion is not
+    (numerically) zero, the result is `R·diag(z₁, z₂, qfac·z₃) | offsets` with `R` a proper rotation;
+    the handedness is carried by `qfac` alone: `det = qfac·z₁·z₂·z₃` for every (anisotropic) zoom. -/
+theorem qform_decode (E : Ext) (f : NFmt) (h : NHdr) (q : Quat Rat)
+    (hfill : fillpositive E.sqrt f.quatThr h.quat = .ok q) (hn : ¬ q.norm2 < f.floatEps)
+    (heps : 0 < f.floatEps)
+    (hpix : 0 ≤ h.pixdim.x ∧ 0 ≤ h.pixdim.y ∧ 0 ≤ h.pixdim.z) (hq : h.qfac = 1 ∨ h.qfac = -1) :
+    h.getQform E f = .ok ⟨(quat2mat q).scaleCols ⟨h.pixdim.x, h.pixdim.y, h.pixdim.z * h.qfac⟩, h.qoff⟩ ∧
+    (quat2mat q).mul (quat2mat q).transpose = M33.one ∧ (quat2mat q).det = 1 ∧
+    ((quat2mat q).scaleCols ⟨h.pixdim.x, h.pixdim.y, h.pixdim.z * h.qfac⟩).det
+      = h.qfac * h.pixdim.x * h.pixdim.y * h.pixdim.z := by
+  have hn0 : q.norm2 ≠ 0 := by grind
+  have hp : ¬ (h.pixdim.x < 0 ∨ h.pixdim.y < 0 ∨ h.pixdim.z < 0) := by grind
+  have hqf : ¬ (h.qfac ≠ 1 ∧ h.qfac ≠ -1) := by grind
+  refine ⟨?_, L.quat2mat_orthogonal q hn0, L.quat2mat_det q hn0, ?_⟩
+  · simp only [NHdr.getQform, hfill, quat2matG, hn, if_false, hp, hqf]
+  · have hd := L.quat2mat_det q hn0
+    generalize quat2mat q = R at hd
+    simp only [M33.det, M33.scaleCols] at hd ⊢
+    grind
+
+example : fillpositive sqrtQ Gen.n1QuatThr ⟨1, 0, 0⟩ = .ok ⟨0, 1, 0, 0⟩ ∧
+    fillpositive sqrtQ Gen.n1QuatThr ⟨1 / 2, 1 / 2, 1 / 2⟩ = .ok ⟨1 / 2, 1 / 2, 1 / 2, 1 / 2⟩ := by decide +kernel
+
+/-- Rotation + zoom (+ reflection) written to the qform reads back EXACTLY in exact arithmetic
+    (`rnd = id`, exact `sqrt`, polar factor of an orthogonal matrix is itself, `eigh` returns a unit
+    top eigenvector), for every unit quaternion with `w = 0` (rotation by exactly 180°) or `w²` not
+    below the format's threshold, every positive zoom triple, with (`s = −1`) or without (`s = 1`)
+    reflection, every translation and code.  Between `0 < w² < |thr|` the reader deliberately
+    returns the neighbouring 180° rotation: that region is covered by the oracle's precision bound. -/
+theorem qform_roundtrip (E : Ext) (hE : L.ExactExt E) (f : NFmt) (hf : f.floatEps ≤ 1)
+    (q : Quat Rat) (hq : q.norm2 = 1) (he : L.EigContract E.topEig q)
+    (hthr : q.w = 0 ∨ absR f.quatThr ≤ q.w * q.w)
+    (z : V3 Rat) (hx : 0 < z.x) (hy : 0 < z.y) (hz : 0 < z.z) (s : Rat) (hs : s = 1 ∨ s = -1)
+    (t : V3 Rat) (h : NHdr) (code : Nat) :
+    (h.setQform E (some ⟨(quat2mat q).scaleCols ⟨z.x, z.y, s * z.z⟩, t⟩) code).getQform E f
+      = .ok ⟨(quat2mat q).scaleCols ⟨z.x, z.y, s * z.z⟩, t⟩ ∧
+    (h.setQform E (some ⟨(quat2mat q).scaleCols ⟨z.x, z.y, s * z.z⟩, t⟩) code).qfac = s :=
+  ⟨L.qform_roundtrip E hE f hf q hq he hthr z hx hy hz s hs t h code, L.qform_qfac E hE q hq he z hx hy hz s hs t h code⟩
+
+/-- the contracts `ExactExt` + `EigContract` are satisfiable (non-vacuity of `qform_roundtrip`): take
+    the non-negative rational square root where it exists -/
+example : ∃ E : Ext, L.ExactExt E ∧ L.EigContract E.topEig (⟨0, 1, 0, 0⟩ : Quat Rat) ∧
+    L.EigContract E.topEig (⟨1 / 2, 1 / 2, 1 / 2, 1 / 2⟩ : Quat Rat) := by
+  classical
+  refine ⟨{ rnd := id, polar := id, topEig := topEigQ, allclose := fun _ _ => false,
+            sqrt := fun y => if h : ∃ x : Rat, 0 ≤ x ∧ x * x = y then Classical.choose h else 0 },
+          ⟨fun _ => rfl, ?_, fun _ _ => rfl⟩, ?_, ?_⟩
+  · intro x hx
+    have hex : ∃ x' : Rat, 0 ≤ x' ∧ x' * x' = x * x := ⟨x, hx, rfl⟩
+    simp only [hex, dite_true]
+    have hc := Classical.choose_spec hex
+    generalize Classical.choose hex = y at hc
+    obtain ⟨h1, h2⟩ := hc
+    have h3 : (y - x) * (y + x) = 0 := by grind
+    rcases Rat.mul_eq_zero.mp h3 with h | h <;> grind
+  · unfold L.EigContract; decide +kernel
+  · unfold L.EigContract; decide +kernel
+
+/-- the exact instance of the external routines used by the driver on the exact stream -/
+def exactExt : Ext :=
+  { rnd := id, sqrt := sqrtQ, polar := id, topEig := topEigQ, allclose := allcloseQ Gen.rtol Gen.atol }
+
+/-- non-vacuity of `qform_roundtrip`'s hypotheses is witnessed by running the statement on a 180°
+    rotation (`w = 0`) with anisotropic zooms and a reflection -/
+example :
+    ((defaultNHdr [2, 3, 4]).setQform exactExt
+        (some ⟨(quat2mat (⟨0, 1, 0, 0⟩ : Quat Rat)).scaleCols ⟨2, 3, (-1) * 5⟩, ⟨7, 8, 9⟩⟩) 1).getQform exactExt
+        ⟨Gen.n2QuatThr, Gen.floatEps⟩
+      = .ok ⟨(quat2mat (⟨0, 1, 0, 0⟩ : Quat Rat)).scaleCols ⟨2, 3, (-1) * 5⟩, ⟨7, 8, 9⟩⟩ := by
+  decide +kernel
+
+/-- The pinned `set_qform` stored the eigenvector as `eigh` returned it.  With a vector a little
+    longer than 1 (here `(0, 1+2⁻⁵⁰, 0, 0)` for the 180° rotation about x) the NIfTI-2 reader refuses
+    the header it has just written; the repaired `set_qform` (renormalisation) does not. -/
+theorem qform_orig_counterexample :
+    let E : Ext := { exactExt with topEig := fun _ => ⟨1 + 1 / 1125899906842624, 0, 0, 0⟩,
+                                   sqrt := fun x => if x = (1 + 1 / 1125899906842624) * (1 + 1 / 1125899906842624)
+                                                    then 1 + 1 / 1125899906842624 else sqrtQ x }
+    let f : NFmt := ⟨Gen.n2QuatThr, Gen.floatEps⟩
+    let a : Aff Rat := ⟨⟨1, 0, 0, 0, -1, 0, 0, 0, -1⟩, ⟨0, 0, 0⟩⟩
+    ((defaultNHdr [2, 3, 4]).setQformOrig E a 1).getQform E f = .error .value ∧
+    ((defaultNHdr [2, 3, 4]).setQform E (some a) 1).getQform E f = .ok a := by
+  decide +kernel
+
+/-! ### MGH -/
+
+/-- DESIGN `mgh_roundtrip`: for every affine, shape and voxel sizes `δ` with `δ ≠ 0` (nothing else
+    about `δ` is used), `get_affine (affine2header A shape) = A` in exact arithmetic — over any field. -/
+theorem mgh_roundtrip {α : Type} [Field α] (a : Aff α) (shape δ : V3 α)
+    (hx : δ.x ≠ 0) (hy : δ.y ≠ 0) (hz : δ.z ≠ 0) :
+    mghGetAffine id (mghAffine2Header id a shape δ) shape = a := L.mgh_roundtrip a shape δ hx hy hz
+
+example : mghGetAffine id (mghAffine2Header id (⟨⟨0, 0, 2, 3, 0, 0, 0, -5, 0⟩, ⟨1, 2, 3⟩⟩ : Aff Rat) ⟨3, 4, 5⟩ ⟨3, 5, 2⟩)
+    ⟨3, 4, 5⟩ = ⟨⟨0, 0, 2, 3, 0, 0, 0, -5, 0⟩, ⟨1, 2, 3⟩⟩ := by decide +kernel
+
+/-- image level: whenever the header is rewritten (affine not `allclose` to the header's), the
+    reloaded MGH affine is the image affine, in exact arithmetic, provided no voxel size is 0 -/
+theorem mgh_image_roundtrip (E : Ext) (hr : ∀ x, E.rnd x = x) (dims : V3 Rat) (a : Aff Rat) (hdr : Option MHdr)
+    (hδ : (E.sqrt a.m.colNorm2.x ≠ 0) ∧ (E.sqrt a.m.colNorm2.y ≠ 0) ∧ (E.sqrt a.m.colNorm2.z ≠ 0))
+    (hfar : ¬ E.allclose a ((match hdr with | none => defaultMHdr dims | some h => { h with dims := dims }).getAffine E)) :
+    (mghRoundtrip E dims a hdr).1 = a := L.mgh_image_roundtrip E hr dims a hdr hδ hfar
+
+example : (mghRoundtrip exactExt ⟨3, 4, 5⟩ ⟨⟨0, 0, 2, 4, 0, 0, 0, -8, 0⟩, ⟨1, 2, 3⟩⟩ none).1
+    = ⟨⟨0, 0, 2, 4, 0, 0, 0, -8, 0⟩, ⟨1, 2, 3⟩⟩ :=
+  mgh_image_roundtrip exactExt (fun _ => rfl) _ _ none (by decide +kernel) (by decide +kernel)
+
+/-! ### SPM `.mat` -/
+
+/-- DESIGN `spm_mat_roundtrip` (1): the 1-based shift matrices are mutually inverse and the x flip is
+    an involution — over any commutative ring -/
+theorem spm_shift_inverse {α : Type} [CommRing α] (a : Aff α) :
+    (a.mulShift from111).mulShift to111 = a ∧ (a.mulShift to111).mulShift from111 = a ∧ a.flipX.flipX = a :=
+  L.spm_shift_inverse a
+
+/-- DESIGN `spm_mat_roundtrip` (2): `read (write A) = A` through the `mat` variable and through the
+    `M` variable (flip applied by writer and undone by reader), flipped convention or not — over
+    any commutative ring -/
+theorem spm_mat_roundtrip {α : Type} [CommRing α] (a hdrAff : Aff α) (xFlip : Bool) :
+    spmReadMat xFlip .both (spmWriteMat xFlip a) hdrAff = a ∧
+    spmReadMat xFlip .mOnly (spmWriteMat xFlip a) hdrAff = a := L.spm_mat_roundtrip a hdrAff xFlip
+
+/-- image level: an SPM image reloaded with its `.mat` file has exactly the affine it was saved
+    with — for EVERY supplied header, every `allclose`, every rounding (exact arithmetic in the
+    `.mat` products; the float version is finding `spm-mat:translation-ulp`) -/
+theorem spm_image_roundtrip (E : Ext) (shape : List Nat) (a : Aff Rat) (hdr : Option AHdr) (mode : MatMode)
+    (hm : mode ≠ .none) : (analyzeRoundtrip E .spm shape a hdr mode).affine = a :=
+  L.spm_image_roundtrip E shape a hdr mode hm
+
+/-! ### fallback affine -/
+
+/-- DESIGN `fallback_affine`: `shape_zoom_affine` on ≥ 3 axes is `diag(±z₁, z₂, z₃)` with translation
+    `−zᵢ·(nᵢ−1)/2` (x negated when flipped) … -/
+theorem fallback_affine (n1 n2 n3 : Nat) (rest : List Nat) (z : V3 Rat) (flip : Bool) :
+    shapeZoomAffine (n1 :: n2 :: n3 :: rest) z flip =
+      ⟨⟨(if flip then -z.x else z.x), 0, 0, 0, z.y, 0, 0, 0, z.z⟩,
+       ⟨-(if flip then -z.x else z.x) * (((n1 : Rat) - 1) / 2), -z.y * (((n2 : Rat) - 1) / 2),
+        -z.z * (((n3 : Rat) - 1) / 2)⟩⟩ := L.fallback_affine n1 n2 n3 rest z flip
+
+/-- … i.e. the centre voxel `(n−1)/2` of the volume sits at the world origin, over any field -/
+theorem fallback_affine_centre {α : Type} [Field α] (shape zooms : V3 α) (flip : Bool) :
+    (shapeZoomAffine3 shape zooms flip).apply ⟨(shape.x - 1) / 2, (shape.y - 1) / 2, (shape.z - 1) / 2⟩
+      = ⟨0, 0, 0⟩ := L.fallback_affine_centre shape zooms flip
+
+example : shapeZoomAffine [3, 5, 7] ⟨3, 2, 1⟩ true = ⟨⟨-3, 0, 0, 0, 2, 0, 0, 0, 1⟩, ⟨3, -4, -3⟩⟩ := by
+  decide +kernel
+
+/-! ### whole save / load flows, NIfTI -/
+
+/-- No header supplied: whatever the numeric routines and `allclose` do, the reloaded affine is the
+    image affine rounded to the storage precision (exactly the affine for NIfTI-2 where `rnd = id`),
+    carried by the sform with code 2 ('aligned'); the qform code is 0. -/
+theorem nifti_roundtrip_no_header (E : Ext) (f : NFmt) (shape : List Nat) (a : Aff Rat) :
+    niftiRoundtrip E f shape a none = .ok ⟨a.map E.rnd, (some (a.map E.rnd), 2), (none, 0)⟩ :=
+  L.nifti_roundtrip_no_header E f shape a
+
+/-- A supplied header whose affine is NOT `allclose` to the image affine is overwritten: same
+    result as without a header. -/
+theorem nifti_roundtrip_header_not_close (E : Ext) (f : NFmt) (shape : List Nat) (a : Aff Rat) (h : NHdr)
+    (b : Aff Rat) (hb : ({ h with shape := shape } : NHdr).bestAffine E f = .ok b) (hfar : E.allclose a b = false) :
+    niftiRoundtrip E f shape a (some h) = .ok ⟨a.map E.rnd, (some (a.map E.rnd), 2), (none, 0)⟩ :=
+  L.nifti_roundtrip_header_not_close E f shape a h b hb hfar
+
+example : niftiRoundtrip exactExt ⟨Gen.n1QuatThr, Gen.floatEps⟩ [2, 3, 4] ⟨⟨0, 0, 2, 4, 0, 0, 0, -8, 0⟩, ⟨1, 2, 3⟩⟩
+      (some ((defaultNHdr [2, 3, 4]).setSform exactExt (some ⟨⟨0, 0, 4, 4, 0, 0, 0, -8, 0⟩, ⟨1, 2, 3⟩⟩) 1))
+    = .ok ⟨⟨⟨0, 0, 2, 4, 0, 0, 0, -8, 0⟩, ⟨1, 2, 3⟩⟩, (some ⟨⟨0, 0, 2, 4, 0, 0, 0, -8, 0⟩, ⟨1, 2, 3⟩⟩, 2), (none, 0)⟩ :=
+  nifti_roundtrip_header_not_close exactExt _ _ _ _ ⟨⟨0, 0, 4, 4, 0, 0, 0, -8, 0⟩, ⟨1, 2, 3⟩⟩
+    (by decide +kernel) (by decide +kernel)
+
+/-- KNOWN FINDING `update_header:allclose-keeps-header-affine`, as a theorem about the code's logic:
+    a supplied header whose affine is `allclose` to the image affine is written unchanged, so the
+    reloaded affine is the HEADER's affine `b`, not the image affine `a`. -/
+theorem nifti_roundtrip_header_close_keeps_header (E : Ext) (f : NFmt) (shape : List Nat) (a : Aff Rat)
+    (h : NHdr) (b : Aff Rat) (hb : ({ h with shape := shape } : NHdr).bestAffine E f = .ok b)
+    (hclose : E.allclose a b = true) :
+    niftiSavedHeader E f shape a (some h) = .ok { h with shape := shape } ∧
+    (∀ o, niftiRoundtrip E f shape a (some h) = .ok o → o.affine = b) :=
+  L.nifti_roundtrip_header_close E f shape a h b hb hclose
+
+/-- … and a concrete instance where that differs from the image affine (zoom 2.00001 against a header
+    holding 2.0, NumPy's default `rtol`/`atol` regenerated from the source): reloaded 2.0. -/
+theorem update_header_allclose_counterexample :
+    let a : Aff Rat := ⟨⟨200001 / 100000, 0, 0, 0, 2, 0, 0, 0, 2⟩, ⟨0, 0, 0⟩⟩
+    let b : Aff Rat := ⟨⟨2, 0, 0, 0, 2, 0, 0, 0, 2⟩, ⟨0, 0, 0⟩⟩
+    let h := (defaultNHdr [2, 3, 4]).setSform exactExt (some b) 2
+    (niftiRoundtrip exactExt ⟨Gen.n2QuatThr, Gen.floatEps⟩ [2, 3, 4] a (some h)).map NOut.affine = .ok b ∧ a ≠ b := by
+  decide +kernel
+
+/-! ### Analyze: voxel sizes only -/
+
+/-- plain Analyze keeps the voxel sizes only: when the header is rewritten (affine not `allclose` to
+    the header's fallback) the reloaded zooms are the rounded column norms of the affine and the
+    reloaded affine is the shape/zoom fallback of those zooms -/
+theorem analyze_roundtrip_zooms (E : Ext) (n1 n2 n3 : Nat) (rest : List Nat) (a : Aff Rat) (hdr : Option AHdr)
+    (mode : MatMode)
+    (hfar : ¬ E.allclose a ((match hdr with
+        | none => defaultAHdr (n1 :: n2 :: n3 :: rest)
+        | some h => { h with shape := n1 :: n2 :: n3 :: rest }).bestAffine .analyze)) :
+    analyzeRoundtrip E .analyze (n1 :: n2 :: n3 :: rest) a hdr mode
+      = ⟨shapeZoomAffine (n1 :: n2 :: n3 :: rest) ((a.m.colNorm2.map E.sqrt).map E.rnd) true,
+         (a.m.colNorm2.map E.sqrt).map E.rnd⟩ :=
+  L.analyze_roundtrip_zooms E n1 n2 n3 rest a hdr mode hfar
+
+example : analyzeRoundtrip exactExt .analyze [3, 5, 7] ⟨⟨0, 0, 2, 4, 0, 0, 0, -8, 0⟩, ⟨1, 2, 3⟩⟩ none .both
+    = ⟨shapeZoomAffine [3, 5, 7] ⟨4, 8, 2⟩ true, ⟨4, 8, 2⟩⟩ := by
+  have h := analyze_roundtrip_zooms exactExt 3 5 7 [] ⟨⟨0, 0, 2, 4, 0, 0, 0, -8, 0⟩, ⟨1, 2, 3⟩⟩ none .both
+    (by decide +kernel)
+  rw [h]; decide +kernel
+
+/-! ### constants regenerated from the source (Generated/C04.lean) -/
+
+/-- side conditions the theorems place on the format constants, re-checked against the current
+    source on every run: thresholds are non-zero and far below single precision squared (so the
+    "w = 0" shortcut of `fillpositive` stays inside the stored precision); `FLOAT_EPS ≤ 1` (unit
+    quaternions pass the guard of `quat2mat`); `allclose` tolerances positive and small. -/
+theorem gen_thresholds_ok :
+    0 < absR Gen.n1QuatThr ∧ absR Gen.n1QuatThr ≤ 1 / 1000000 ∧
+    0 < absR Gen.n2QuatThr ∧ absR Gen.n2QuatThr ≤ 1 / 100000000000000 ∧
+    0 < Gen.floatEps ∧ Gen.floatEps ≤ 1 ∧
+    0 < Gen.rtol ∧ Gen.rtol ≤ 1 / 10000 ∧ 0 < Gen.atol ∧ Gen.atol ≤ 1 / 1000000 := by
+  decide +kernel
 
 end Nb.C04
